@@ -318,11 +318,34 @@ func c20EqPool() []poolVal {
 			return variants.VariantFromArray([]*variants.Variant{variants.VariantFromArray([]*variants.Variant{variants.VariantFromInteger(2)})})
 		}},
 	)
+	// lists with absent (nil) element slots: a slot both lists leave empty says nothing about the rest
+	in := func(x int) *variants.Variant { return variants.VariantFromInteger(x) }
+	for _, e := range []struct {
+		label string
+		mk    func() []*variants.Variant
+	}{
+		{"Array[nil]", func() []*variants.Variant { return []*variants.Variant{nil} }},
+		{"Array[nil,1]", func() []*variants.Variant { return []*variants.Variant{nil, in(1)} }},
+		{"Array[nil,2]", func() []*variants.Variant { return []*variants.Variant{nil, in(2)} }},
+		{"Array[1,nil,3]", func() []*variants.Variant { return []*variants.Variant{in(1), nil, in(3)} }},
+		{"Array[1,nil,4]", func() []*variants.Variant { return []*variants.Variant{in(1), nil, in(4)} }},
+		{"Array[1,null,3]", func() []*variants.Variant { return []*variants.Variant{in(1), variants.EmptyVariant(), in(3)} }},
+	} {
+		e := e
+		p = append(p, poolVal{e.label, func() *variants.Variant { return variants.VariantFromArray(e.mk()) }})
+	}
 	return p
 }
 
 // refEquals: "" unknown (either accepted), "t", "f".
 func refEquals(a, b *variants.Variant) string {
+	if a == nil || b == nil {
+		// absent element slots: equal only to absent slots
+		if a == b {
+			return "t"
+		}
+		return "f"
+	}
 	if a.Type() == variants.Null || b.Type() == variants.Null {
 		if a.Type() == b.Type() {
 			return "t"
